@@ -1460,3 +1460,27 @@ m('E1-hash-guard-cleaned-for-runtime-errors-only', 'C15', 'E1', 'HashValue/clean
             running.erase(ident);
         }
         std::rethrow_exception(std::current_exception());""")
+m('G3-failed-registration-rolled-back-blindly', 'C12', 'G3', 'register_pytree_node/no-blind-rollback', 'optree/registry.py',
+  """        _C.register_node(
+            cls,
+            flatten_func,
+            unflatten_func,
+            path_entry_type,
+            namespace,
+        )
+        _NODETYPE_REGISTRY[registration_key] = PyTreeNodeRegistryEntry(""",
+  """        try:
+            _C.register_node(
+                cls,
+                flatten_func,
+                unflatten_func,
+                path_entry_type,
+                namespace,
+            )
+        except BaseException:
+            try:
+                _C.unregister_node(cls, namespace)
+            except ValueError:
+                pass
+            raise
+        _NODETYPE_REGISTRY[registration_key] = PyTreeNodeRegistryEntry(""")
